@@ -308,6 +308,9 @@ class _rewrite_captured_vars(ast.NodeTransformer):
             if inspect.ismethod(x):
                 # A bound method carries its object: its source text alone is not the callable.
                 return None
+            if hasattr(x, "__wrapped__"):
+                # A decorated function is not the source text `inspect` finds for it.
+                return None
             try:
                 lm = _parse_source_for_lambda(x, None)
                 if lm is not None:
